@@ -580,6 +580,11 @@ class ExprMixin(CallMixin):
         self.list_append(env["__yield__"], v)
         return NONE
 
+    def ev_YieldFrom(self, e, env, module):
+        v = self.eval(e.value, env, module)
+        self.list_extend(env["__yield__"], v)
+        return NONE
+
     def ev_Await(self, e, env, module):
         return self.eval(e.value, env, module)
 
